@@ -321,6 +321,8 @@ def run(ctx):
     structural.memo_on_success(ctx)
     from rules import hist
     hist.run(ctx, res, 'C13')       # composition: histories through the public API against the reference model (rules/hist.py)
+    from rules import scale
+    scale.run(ctx, res, 'C13')      # the same on graphs whose collections have the sizes the tree names (rules/scale.py)
     common.vacuity(res, "HISTORY", 10000)
     common.vacuity(res, "FAULT-SWEEP", 150)
     res.analysed = common.analysed(ctx, sorted({q for _, q, _, _ in entry_points(h, rec)}))
